@@ -24,6 +24,19 @@ def adapters_in(src):
     return out
 
 
+def Elem(base, allow=()):
+    """an element of `base`: `base[i]`, or the item of an iteration over `base` whose only truncating adapters are
+    among `allow` (so `for i in 1..n { base[i] }` and `base.iter().skip(1)` are the same thing to a rule)"""
+    def m(e):
+        e = strip(e)
+        if Index(base, Any())(e):
+            return True
+        if Field(Call("next", Mentions(base)), name="0", variant="Some")(e):
+            return all(a in allow for a in adapters_in(e))
+        return False
+    return m
+
+
 def loop_covers_all(ctx, rule, f, edge, source_pat, desc, key=None, refusal=("err",)):
     """the innermost loop containing edge iterates a source matching source_pat without truncating
     adapters, and its header dominates every accepting return"""
